@@ -67,6 +67,7 @@ Truthy(v) ==
     [] v.t = "int"     -> v.n # 0
     [] v.t = "str"     -> v.s # ""
     [] v.t = "bytes"   -> v.s # ""
+    [] v.t = "byte"    -> TRUE
     [] v.t = "seq"     -> v.once \/ Len(v.vs) > 0
     [] v.t = "dict"    -> Len(v.kvs) > 0
     [] v.t = "obj"     -> v.kind # "falsy"
@@ -107,6 +108,16 @@ Restored(n, backup) ==
   THEN glob[n] ELSE backup
 
 -----
+\* attribute access falls back to item lookup (utils.lookup_attr): a KeyError of
+\* the item lookup re-raises the original AttributeError, other errors propagate
+HasKey(v, a) == \E n \in 1..Len(v.kvs) : v.kvs[n].k = a
+AttrOf(v, a) ==
+  CASE v.t = "obj" /\ v.kind = "attr" -> [t |-> "str", s |-> "p"]
+    [] v.t = "dict" -> IF HasKey(v, a) THEN v.kvs[CHOOSE n \in 1..Len(v.kvs) : v.kvs[n].k = a].v
+                       ELSE Exc("AttributeError")
+    [] v.t \in {"seq", "str", "bytes"} -> IF v.t = "seq" /\ v.once THEN Exc("AttributeError") ELSE Exc("TypeError")
+    [] OTHER -> Exc("AttributeError")
+
 (* Expression evaluation: set-valued big-step semantics.  A result is      *)
 (* [r |-> value or Exc, ev |-> sequence of call events].                   *)
 RECURSIVE EvAll(_, _), EvPipe(_, _, _), EvStr(_, _, _)
@@ -132,8 +143,23 @@ EvAll(e, L) ==
                                  ELSE [t |-> "errfield", f |-> e.f, c |-> L["error"].c, site |-> L["error"].site],
                            ev |-> <<>>] }
     [] e.x = "dflt"  -> { [r |-> VDefault, ev |-> <<>>] }
+    [] e.x = "wrap"  -> EvAll(e.e, L)      \* lambda / comprehension / conditional ...: identity
+    [] e.x = "attr"  -> { [r |-> IF IsExc(a.r) THEN a.r ELSE AttrOf(a.r, e.a), ev |-> a.ev] : a \in EvAll(e.e, L) }
+
+\* deviation BadAlternativePoisonsPipe: an expression one of whose pipe
+\* alternatives has invalid syntax fails as a whole, also when that alternative
+\* is never reached (non-strict mode compiles the whole expression to a raise)
+RECURSIVE HasBad(_)
+HasBad(e) == CASE e.x = "bad" -> TRUE
+               [] e.x \in {"not", "exists", "wrap", "attr"} -> HasBad(e.e)
+               [] e.x = "pipe" -> \E n \in 1..Len(e.es) : HasBad(e.es[n])
+               [] e.x = "str" -> \E n \in 1..Len(e.ps) : HasBad(e.ps[n])
+               [] OTHER -> FALSE
 
 EvPipe(es, i, L) ==
+  IF i = 1 /\ "BadAlternativePoisonsPipe" \in Dev /\ (\E n \in 1..Len(es) : HasBad(es[n]))
+  THEN { [r |-> Exc("ExpressionError"), ev |-> <<>>] }
+  ELSE
   UNION { IF IsExc(a.r) /\ a.r.c \in PipeCaught /\ i < Len(es)
           THEN { [r |-> b.r, ev |-> a.ev \o b.ev] : b \in EvPipe(es, i + 1, L) }
           ELSE { a }
@@ -144,7 +170,8 @@ EvPipe(es, i, L) ==
 EvStr(ps, i, L) ==
   IF i > Len(ps) THEN { [r |-> [t |-> "cat", vs |-> <<>>], ev |-> <<>>] }
   ELSE IF ps[i].x = "lit"
-       THEN { [r |-> [t |-> "cat", vs |-> << [t |-> "lit", p |-> i] >> \o b.r.vs], ev |-> b.ev]
+       THEN { IF IsExc(b.r) THEN b
+              ELSE [r |-> [t |-> "cat", vs |-> << [t |-> "lit", p |-> i] >> \o b.r.vs], ev |-> b.ev]
               : b \in EvStr(ps, i + 1, L) }
        ELSE UNION { IF IsExc(a.r) THEN { a }
                     ELSE { IF IsExc(b.r) THEN [r |-> b.r, ev |-> a.ev \o b.ev]
@@ -370,10 +397,15 @@ SCond ==    \* visit_Condition
   /\ UNCHANGED <<pid, res>>
 
 \* what tal:repeat iterates over (RepeatDict.__call__: list(iterable), None -> ())
-Iterable(v) == v.t \in {"none", "seq", "dict"}
+\* strings are iterables of their characters; string values are tags, their
+\* lengths are given here (the concretiser's STR_TAGS)
+StrLen(s) == CASE s = "" -> 0 [] s = "h" -> 6 [] s = "h2" -> 12 [] OTHER -> 1
+Iterable(v) == v.t \in {"none", "seq", "dict", "str", "bytes"}
 ItemsOf(v) == CASE v.t = "none" -> <<>>
                 [] v.t = "seq"  -> v.vs
-                [] v.t = "dict" -> [n \in 1..Len(v.kvs) |-> v.kvs[n].k]
+                [] v.t = "dict" -> [n \in 1..Len(v.kvs) |-> [t |-> "str", s |-> v.kvs[n].k]]
+                [] v.t = "str"  -> [n \in 1..StrLen(v.s) |-> IF StrLen(v.s) = 1 THEN v ELSE [t |-> "char", s |-> v.s, n |-> n]]
+                [] v.t = "bytes" -> [n \in 1..StrLen(v.s) |-> [t |-> "byte", s |-> v.s, n |-> n]]
 
 SRep ==     \* visit_Repeat, up to the loop head
   /\ Running /\ F.st = "rep"
